@@ -62,6 +62,11 @@ def gen_disconnected(rng, max_n):
     return {"n": n, "edges": edges}
 
 
+def reset_world():
+    from sim import world
+    world.reload_persim(("persim.gromov_hausdorff",))
+
+
 def gen_case(rng, tier):
     kind = rng.choice(KINDS)
     max_n = rng.choice((4, 6, 7)) if tier == "quick" else rng.choice((4, 6, 7, 8, 9))
